@@ -258,6 +258,7 @@ func (ix *BM25SearchIndex) Remove(id uint32) error {
 	_, exists := ix.docTokens[id]
 	alreadyDeleted := ix.deletedDocs.Contains(id)
 	ix.mu.RUnlock()
+	verifHook("bm25.remove.checked", id)
 
 	// Fast-fail validation outside of write lock
 	if !exists {
@@ -470,6 +471,7 @@ func (ix *BM25SearchIndex) WriteTo(w io.Writer) (int64, error) {
 		return 0, fmt.Errorf("failed to flush before serialization: %w", err)
 	}
 
+	verifHook("bm25.writeto.flushed")
 	ix.mu.RLock()
 	defer ix.mu.RUnlock()
 
